@@ -127,7 +127,14 @@ def make_workload(seed, i):
         for _ in range(eb.randint(0, 2)):
             what_.append(E.apply_edit(pkg, eb, eb.choice(["retype_field", "change_enum", "shrink_enum"])))
         desc["evolution_breaking_edits"] = [w_ for w_ in what_ if w_]
+    ah = rng.fork("arrayheader")
+    if "cpp" in pkg.targets and ah.chance(0.4):
+        # the array header of the C++ target given as a path relative to the package (a file kept next to the model)
+        pkg.targets["cpp"] = dict(pkg.targets["cpp"], overrideArrayHeader="arrays/my_arrays.h")
+        desc["relative_array_header"] = True
     files = M.render_tree(pkg, "/w")
+    if desc.get("relative_array_header"):
+        files["/w/pkg/arrays/my_arrays.h"] = "#pragma once\n// the project's own array types\n"
     desc["other_files_in_package_dirs"] = len(M.add_clutter(files, rng.fork("clutter")))
     if desc.get("type_name_shared_by_two_imports") and not desc.get("evolution_breaking_edits") and rng.fork("unqforce").chance(0.7):
         # the qualifier forgotten on a type that two imported packages define: whatever a diagnostic says about it must not vary
@@ -207,6 +214,18 @@ def run_case(sim, check, seed, i, K, n_crash):
             break
     if base[0] == "died":
         return stats, viols
+    # the same package reached through another path: /via is a symbolic link to /w, the command is run in /via/pkg (which
+    # is what the working directory is called then); the files generated must be those of the run in /w/pkg
+    if stats["accepted"] and (desc.get("args") or ["generate"])[0] == "generate":
+        rv = sim.run(oneshot(desc, files, "/via/pkg", links={"/via": "/w"}), mapseed=mapseeds[0])
+        stats["runs"] += 1
+        stats["via_symlink"] = 1
+        a = {p_: c_ for p_, c_ in tw.tree_files(results[0]["tree"]).items() if p_ not in files}
+        b = {p_: c_ for p_, c_ in tw.tree_files(rv.get("tree") or {}).items() if p_ not in files}
+        if rv.get("status") != "returned" or rv.get("exit_code") != 0 or a != b:
+            diff = sorted(p_ for p_ in set(a) | set(b) if a.get(p_) != b.get(p_))
+            viols.append(({"class": "output_depends_on_the_path_the_package_was_reached_by", "where": (diff[0] if diff else "exit %s" % rv.get("exit_code")).replace("/w/", "")[:200]},
+                          {"mode": "via_symlink", "files": files, "cwd": cwd, "mapseeds": [mapseeds[0]], "seed": seed, "case": desc}))
     # idempotence: second run on the disk the first one left behind issues no mutation
     if stats["accepted"]:
         populated = dict(files)
@@ -312,6 +331,12 @@ def replay(sim, doc):
         b = outcome(sim.run(oneshot(desc, files, cwd, **sc[1]), mapseed=ms[1]))
         what, where = first_diff(a, b)
         return bool(what), "%s %s" % (what, where)
+    if mode == "via_symlink":
+        r1 = sim.run(oneshot(desc, files, cwd), mapseed=ms[0])
+        rv = sim.run(oneshot(desc, files, "/via/pkg", links={"/via": "/w"}), mapseed=ms[0])
+        a = {p_: c_ for p_, c_ in tw.tree_files(r1["tree"]).items() if p_ not in files}
+        b = {p_: c_ for p_, c_ in tw.tree_files(rv.get("tree") or {}).items() if p_ not in files}
+        return a != b or rv.get("exit_code") != 0, "files generated through /via/pkg %s those generated in /w/pkg" % ("differ from" if a != b else "equal")
     if mode == "rerun":
         r1 = sim.run(oneshot(desc, files, cwd), mapseed=ms[0])
         populated = dict(files); populated.update(tw.tree_files(r1["tree"]))
@@ -389,7 +414,7 @@ def main():
     max_cases = 160 if quick else 100000
     totals = {"runs": 0, "accepted": 0, "rejected_with_diagnostics": 0, "with_versions": 0, "invalid": 0,
               "crash_points": 0, "crash_left_torn_file": 0, "crash_left_same_size_torn_file": 0, "warnings_seen": 0,
-              "dirty_starts": 0, "dirty_same_size_stale_file": 0, "cases_with_errors_in_several_versions": 0, "executions_with_a_seeded_goroutine_schedule": 0, "cases_in_which_the_tool_ran_several_goroutines": 0, "cases_with_config_overrides": 0, "cases_with_several_unknown_config_keys": 0}
+              "dirty_starts": 0, "dirty_same_size_stale_file": 0, "cases_with_errors_in_several_versions": 0, "executions_with_a_seeded_goroutine_schedule": 0, "cases_in_which_the_tool_ran_several_goroutines": 0, "cases_also_run_through_a_symlinked_path": 0, "cases_with_config_overrides": 0, "cases_with_several_unknown_config_keys": 0}
     i = 0
     batch = 32
     while i < max_cases and check.elapsed() < budget:
@@ -405,6 +430,7 @@ def main():
             totals["invalid"] += 1 if d["kind"] == "invalid" else 0
             totals["cases_with_errors_in_several_versions"] += 1 if d.get("errors_in_several_versions") else 0
             totals["executions_with_a_seeded_goroutine_schedule"] += K - 1
+            totals["cases_also_run_through_a_symlinked_path"] += stats.get("via_symlink", 0)
             totals["cases_with_config_overrides"] += 1 if d.get("args") else 0
             totals["cases_with_several_unknown_config_keys"] += 1 if d.get("unknown_config_keys") else 0
             totals["cases_in_which_the_tool_ran_several_goroutines"] += 1 if stats.get("goroutines", 0) > 1 else 0
